@@ -241,13 +241,8 @@ pub fn metric_value(
     let tol_sum = REL * s.abs + 1e-12;
     match p {
         "count" => (Some(nf), 0.0),
-        "sum" => {
-            if kind == MK::Sum && !some {
-                (None, 0.0)
-            } else {
-                (Some(s.sum), tol_sum)
-            }
-        }
+        // the final result of an empty `sum` is 0 (Elasticsearch behaviour), which is what orders
+        "sum" => (Some(s.sum), tol_sum),
         "min" => (some.then_some(s.min), 0.0),
         "max" => (some.then_some(s.max), 0.0),
         "avg" => (some.then(|| s.sum / nf), if some { tol_sum / nf } else { 0.0 }),
